@@ -35,6 +35,11 @@ Theorem C10_value_of_singular_query_is_the_operand : forall root l cur,
   = RValue (r_comparable rx_spec_full rx_spec_sub jeqb false root (CSq (SqCur l)) cur).
 Proof. exact (value_of_singular_is_operand rx_spec_full rx_spec_sub jeqb false). Qed.
 Print Assumptions C10_value_of_singular_query_is_the_operand.
+Theorem C10_value_call_compares_as_the_path : forall root l cur op r,
+  r_atom rx_spec_full rx_spec_sub jeqb false root (ACmp op (CFn (FnValue (ArgTest (TRel (sq_segs l))))) r) cur
+  = r_atom rx_spec_full rx_spec_sub jeqb false root (ACmp op (CSq (SqCur l)) r) cur.
+Proof. exact (value_call_compares_as_path rx_spec_full rx_spec_sub jeqb false). Qed.
+Print Assumptions C10_value_call_compares_as_the_path.
 Example C10_singular_example :
   r_tfun rx_spec_full rx_spec_sub jeqb false JNull (FnCount (ArgTest (TRel (sq_segs [SqName [97]%N])))) (JObj [([97]%N, JNull)])
     = RValue (Some (jint 1))
